@@ -17,7 +17,8 @@ func init() {
 		Title: "Controllers never strand a transaction that could make progress",
 		Explanation: "Liveness itself cannot be decided statically. Decided: the frozen wake-up obligations the fixed-point argument rests on — (1) every return that waits on the predecessor proposal re-queues that predecessor; (2) every terminal state of a proposal phase whose step moved a cursor a successor waits on (COMMITTED, APPLIED, ABORTED, apply-FAILED) re-queues the successor when one is linked; " +
 			"(3) entering Validate and failing Initialize re-queue transaction index+1 (which waits for its predecessor to leave INITIALIZING); (4) each controller watcher maps a store event to exactly the frozen set of ids; (5) a failed store or topo call that is not classified as tolerated (NotFound/AlreadyExists/Conflict) makes the pass return a non-nil error, which the controller library retries; " +
-			"(6) waits on a serializable predecessor transaction carry a wake-up.",
+			"(6) waits on a serializable predecessor transaction carry a wake-up." +
+			" Also: an ABORTING pass that writes nothing is infeasible where the abort can move (C09.11).",
 		Declined: []string{"the fixed-point / termination claim over all delivery orders", "that the controller library delivers every queued id"},
 		Run:      runC09,
 		Witness:  []WitnessTarget{{pkgProposalCtl, nil}, {pkgTransactionCtl, nil}, {pkgConfigCtl, []string{"Start"}}, {pkgMastershipCtl, []string{"Start"}}},
